@@ -3,6 +3,7 @@ package main
 // Ground obligations over package-level tables read from the compiled initialiser.
 
 import (
+	"go/types"
 	"fmt"
 	"math/big"
 	"os"
@@ -188,6 +189,89 @@ func (u *Unit) tableObligations(fre, kre *regexp.Regexp) ([]*Obligation, []FuncO
 			mk("otp.table$knownSuites", "present", false, "knownSuites is a map literal of the initialiser")
 		}
 		fo = append(fo, FuncOut{Name: "otp.table$knownSuites", Unit: u.Name, HasContract: true, Obligations: n + 1})
+	}
+	// The panic barrier of the REST layer (structure of api.Recovery; Go's rule that recover() stops a panic only when
+	// called directly by the deferred function is the trusted part). What the deferred function does with a recovered
+	// panic is its own contract (api.Recovery$1$1, ghost `panicking`).
+	for _, p := range u.Pkgs {
+		rec, _ := p.Members["Recovery"].(*ssa.Function)
+		if rec == nil || p.Pkg.Name() != "api" {
+			continue
+		}
+		var R, D *ssa.Function
+		if len(rec.AnonFuncs) > 0 {
+			R = rec.AnonFuncs[0]
+		}
+		deferFirst, callsNext, recoverDirect := false, 0, false
+		if R != nil && len(R.Blocks) > 0 {
+			seenDefer := false
+			for _, b := range R.Blocks {
+				for _, in := range b.Instrs {
+					switch x := in.(type) {
+					case *ssa.Defer:
+						if b == R.Blocks[0] && callsNext == 0 {
+							switch v := x.Call.Value.(type) {
+							case *ssa.MakeClosure:
+								D, _ = v.Fn.(*ssa.Function)
+							case *ssa.Function:
+								D = v
+							}
+							seenDefer = D != nil
+						}
+					case *ssa.Call:
+						val := x.Call.Value
+						if u, ok := val.(*ssa.UnOp); ok {
+							val = u.X
+						}
+						if fv, ok := val.(*ssa.FreeVar); ok && fv.Name() == "next" {
+							callsNext++
+							if callsNext == 1 && seenDefer && len(x.Call.Args) == 1 && len(R.Params) == 1 && types.Identical(x.Call.Args[0].Type(), R.Params[0].Type()) {
+								deferFirst = true
+							}
+						}
+					}
+				}
+			}
+		}
+		if D != nil {
+			for _, b := range D.Blocks {
+				for _, in := range b.Instrs {
+					if c, ok := in.(*ssa.Call); ok {
+						if bi, ok := c.Call.Value.(*ssa.Builtin); ok && bi.Name() == "recover" {
+							recoverDirect = true
+						}
+					}
+				}
+			}
+		}
+		wired := false
+		if ns, _ := p.Members["NewServer"].(*ssa.Function); ns != nil {
+			hasRec, hasRouters := false, false
+			for _, b := range ns.Blocks {
+				for _, in := range b.Instrs {
+					var ops []*ssa.Value
+					for _, op := range in.Operands(ops) {
+						if op == nil || *op == nil {
+							continue
+						}
+						if f, ok := (*op).(*ssa.Function); ok {
+							if f == rec {
+								hasRec = true
+							}
+							if f.Name() == "routers" {
+								hasRouters = true
+							}
+						}
+					}
+				}
+			}
+			wired = hasRec && hasRouters
+		}
+		mk("api.table$Recovery", "Recovery[defer-before-next]", deferFirst, "the handler returned by Recovery defers its recovery function first and then calls next(ctx), once")
+		mk("api.table$Recovery", "Recovery[recover-direct]", recoverDirect, "the deferred function itself calls recover() (a recover() inside a helper it calls would not stop the panic)")
+		mk("api.table$Recovery", "Recovery[calls-next-once]", callsNext == 1, "next is called exactly once")
+		mk("api.table$Recovery", "Recovery[wired]", wired, "NewServer builds its handler from routers wrapped in Recovery")
+		fo = append(fo, FuncOut{Name: "api.table$Recovery", Unit: u.Name, HasContract: true, Obligations: 4})
 	}
 	// algoStrMap
 	if g := u.globalByName("algoStrMap"); g != nil && u.internalPkg(g.Pkg) {
